@@ -2376,6 +2376,9 @@ Expr={expr}"""
             frame = self.index
 
         mins, maxes, lens = _compute_partition_stats(frame, allow_overlap=set_divisions)
+        if len(mins) == 0:
+            # no rows at all: there is nothing to derive divisions from
+            return self if set_divisions else self.divisions
         divisions = tuple(mins) + (maxes[-1],)
         if not set_divisions:
             return divisions
